@@ -1,6 +1,7 @@
 package props
 
 import (
+	"strconv"
 	"bytes"
 	"encoding/json"
 	"fmt"
@@ -91,8 +92,7 @@ func startB(flags string, register bool, extraEnv ...string) (*bProc, error) {
 	if err != nil {
 		return nil, err
 	}
-	p := &bProc{addr: freePort(), secret: "c2VjcmV0LWZvci1i"}
-	admin := freePort()
+	p := &bProc{secret: "c2VjcmV0LWZvci1i"}
 	p.ncs = httptest.NewServer(http.HandlerFunc(func(w http.ResponseWriter, r *http.Request) {
 		b, _ := io.ReadAll(r.Body)
 		var rp ncsclient.ReceiptPayload
@@ -135,6 +135,9 @@ func startB(flags string, register bool, extraEnv ...string) (*bProc, error) {
 		w.WriteHeader(200)
 		w.Write([]byte("{}"))
 	}))
+	// the fake services hold their ports by now: the ports picked for the binary cannot be theirs
+	p.addr = freePort()
+	admin := freePort()
 	p.cmd = exec.Command(bin)
 	p.cmd.Env = []string{
 		"HAGALL_ADDR=" + p.addr, "HAGALL_ADMIN_ADDR=" + admin, "HAGALL_PUBLIC_ENDPOINT=http://" + p.addr,
@@ -156,6 +159,14 @@ func startB(flags string, register bool, extraEnv ...string) (*bProc, error) {
 		if err == nil {
 			resp.Body.Close()
 			if !register || resp.StatusCode == 200 {
+				// The port was picked by listening on :0 and closing again: between that and the
+				// child's own bind ANOTHER process (or one of this test's fake services) can take it,
+				// and would then answer these requests - a fake service with 200 to everything. Only
+				// go on if the listening socket really belongs to the child.
+				if !p.alive() || !ownsPort(p.cmd.Process.Pid, p.addr) {
+					p.stop()
+					return nil, fmt.Errorf("the port %s is not held by the started binary (inconclusive)", p.addr)
+				}
 				return p, nil
 			}
 		}
@@ -163,6 +174,48 @@ func startB(flags string, register bool, extraEnv ...string) (*bProc, error) {
 	}
 	p.stop()
 	return nil, fmt.Errorf("the binary did not become ready (inconclusive)")
+}
+
+// ownsPort reports whether process pid holds a listening TCP socket on addr's port (Linux /proc).
+func ownsPort(pid int, addr string) bool {
+	_, portStr, err := net.SplitHostPort(addr)
+	if err != nil {
+		return false
+	}
+	port, _ := strconv.Atoi(portStr)
+	inodes := map[string]bool{}
+	for _, f := range []string{"/proc/net/tcp", "/proc/net/tcp6"} {
+		b, err := os.ReadFile(f)
+		if err != nil {
+			continue
+		}
+		for _, line := range strings.Split(string(b), "\n")[1:] {
+			fs := strings.Fields(line)
+			if len(fs) < 10 || fs[3] != "0A" { // 0A = LISTEN
+				continue
+			}
+			i := strings.LastIndex(fs[1], ":")
+			if i < 0 {
+				continue
+			}
+			if lp, err := strconv.ParseInt(fs[1][i+1:], 16, 32); err == nil && int(lp) == port {
+				inodes[fs[9]] = true
+			}
+		}
+	}
+	if len(inodes) == 0 {
+		return false
+	}
+	fds, err := os.ReadDir(fmt.Sprintf("/proc/%d/fd", pid))
+	if err != nil {
+		return false
+	}
+	for _, fd := range fds {
+		if l, err := os.Readlink(fmt.Sprintf("/proc/%d/fd/%s", pid, fd.Name())); err == nil && strings.HasPrefix(l, "socket:[") && inodes[strings.TrimSuffix(strings.TrimPrefix(l, "socket:["), "]")] {
+			return true
+		}
+	}
+	return false
 }
 
 func (p *bProc) alive() bool {
